@@ -114,6 +114,7 @@ func runFixed(c *Ctx, r *Reporter) {
 		return
 	}
 	fixedSSA := p.SSAFunc(fixedFn.Obj)
+	wrapAnyLooksThroughGroups(p, pkg, r)
 	// node types with a field of type *Type that denotes the node's own static type
 	targets := map[string]string{} // type name -> field
 	nodes, _ := parserNodeTypes(p)
@@ -1207,5 +1208,65 @@ func runLayoutKey(c *Ctx, r *Reporter) {
 					"a path returns this "+named.Obj().Name()+" node without registering it with recordMultiline: comments and line breaks inside the literal are dropped by the formatter")
 			}
 		}
+	}
+}
+
+// wrapAnyLooksThroughGroups: a parenthesised literal converts like the literal. wrapAny gives up with an internal
+// error panic only after it has found that the value is not a GroupExpression (whose inner expression it converts
+// instead): every panic in wrapAny is dominated by the failed edge of an assertion of the value to *GroupExpression.
+func wrapAnyLooksThroughGroups(p *Program, pkg *packages.Package, r *Reporter) {
+	fd := FindFunc(pkg, "wrapAny")
+	if fd == nil {
+		r.Undecided("wrapAny not found")
+		return
+	}
+	sf := p.SSAFunc(fd.Obj)
+	type edge struct {
+		b   *ssa.BasicBlock
+		idx int
+	}
+	var notGroup []edge
+	for _, b := range sf.Blocks {
+		if len(b.Instrs) == 0 {
+			continue
+		}
+		ifi, ok := b.Instrs[len(b.Instrs)-1].(*ssa.If)
+		if !ok {
+			continue
+		}
+		ex, ok := ifi.Cond.(*ssa.Extract)
+		if !ok || ex.Index != 1 {
+			continue
+		}
+		ta, ok := ex.Tuple.(*ssa.TypeAssert)
+		if !ok || !ta.CommaOk || len(sf.Params) == 0 || ta.X != ssa.Value(sf.Params[0]) {
+			continue
+		}
+		if pt, ok := ta.AssertedType.(*types.Pointer); ok {
+			if n := namedOf(pt.Elem()); n != nil && n.Obj().Name() == "GroupExpression" {
+				notGroup = append(notGroup, edge{b, 1})
+			}
+		}
+	}
+	n := 0
+	for _, b := range sf.Blocks {
+		for _, ins := range b.Instrs {
+			pn, ok := ins.(*ssa.Panic)
+			if !ok {
+				continue
+			}
+			n++
+			good := false
+			for _, e := range notGroup {
+				if edgeDominates(e.b, e.idx, b) {
+					good = true
+				}
+			}
+			r.Check(good, fmt.Sprintf("pkg/parser.wrapAny#gives-up-only-for-non-groups[%d]", n), p.Rel(instrPos(pn)), "the internal error is reached only for a value that is not a parenthesised expression",
+				"wrapAny can reach this internal-error panic for a GroupExpression: a parenthesised literal that has to be converted (`x:[]any` `x = ([1 2])`, `[[1 \"a\"] ([3 4])]`) crashes the parser instead of being converted like the literal")
+		}
+	}
+	if n == 0 {
+		r.Note("wrapAny has no panic")
 	}
 }
